@@ -4,6 +4,13 @@ From Coq Require Import List Arith Lia Bool.
 From TLXV Require Import C12.CPtr C12.CPtrProofs.
 Import ListNotations.
 
+Section KindsUnify.
+Variable nodel : var -> bool.
+Local Notation assign_fresh := (CPtr.assign_fresh nodel).
+Local Notation unify := (CPtr.unify nodel).
+Local Notation run := (CPtr.run nodel).
+Local Notation move_assign := (CPtr.move_assign nodel).
+
 Lemma nth_app_front {A} (l : list A) a v d : v < length l -> nth v (l ++ [a]) d = nth v l d.
 Proof. intros H. now rewrite app_nth1. Qed.
 
@@ -28,18 +35,23 @@ Proof.
     pose proof (G_live_pos _ _ _ _ _ HI Hg) as Hpos. destruct HI as [_ H]. specialize (H o).
     destruct (nth_error (cells s) o) eqn:Hc; [|lia].
     assert (o < length (cells s)) by (apply nth_error_Some; congruence). unfold n. lia. }
-  change (vars (pop_temp (dtor (move_assign s2 v t) t)) = upd (vars s) v (Live (Some n))).
+  change (vars (pop_temp (dtor_k (nodel v) (move_assign s2 v t) t)) = upd (vars s) v (Live (Some n))).
   unfold move_assign. rewrite Hpv, Hpt, Hne. rewrite ptr_of_dec, Hpt.
-  unfold pop_temp. cbn [vars]. rewrite vars_dtor. cbn [setv vars]. rewrite vars_dec, Hv2.
+  unfold pop_temp. cbn [vars]. rewrite vars_dtor_k. cbn [setv vars]. rewrite vars_dec, Hv2.
   rewrite upd_app_front by auto.
   replace t with (length (upd (vars s) v (Live (Some n)))) by (rewrite length_upd; reflexivity).
   rewrite !upd_app_last. apply removelast_last.
 Qed.
 
+Ltac mono_steps :=
+  repeat first [ apply mono_setv | apply mono_inc | apply mono_dec | apply mono_push | apply mono_pop
+               | apply mono_flag | apply mono_alloc ];
+  try apply mono_refl; auto.
+
 Lemma mono_assign_fresh_from_alloc s v x : mono (fst (alloc s x)) (assign_fresh s v x).
 Proof.
   unfold assign_fresh. change (alloc s x) with (fst (alloc s x), length (cells s)). cbv iota beta.
-  unfold dtor, ctor_raw. mono_steps. apply mono_move_assign. mono_steps.
+  unfold dtor_k, ctor_raw. mono_steps. apply mono_move_assign. mono_steps.
 Qed.
 
 Theorem unify_spec n ops v o c :
@@ -51,21 +63,21 @@ Theorem unify_spec n ops v o c :
      exists c', nth_error (cells (unify s v)) (length (cells s)) = Some c' /\
                 rc c' = 1 /\ dcount c' = 0 /\ val c' = val c).
 Proof.
-  intros s Hg Hc. pose proof (run_inv _ ops (init_inv n)) as HI. fold s in HI.
+  intros s Hg Hc. pose proof (run_inv nodel _ ops (init_inv n)) as HI. fold s in HI.
   assert (live s v = true) as Hl by (unfold live; now rewrite Hg).
   assert (ptr_of s v = Some o) as Hp by (unfold ptr_of; now rewrite Hg).
   pose proof (live_range _ _ Hl) as Hvr.
   assert (o < length (cells s)) as Holt by (apply nth_error_Some; congruence).
   split.
   - intros H1. unfold unify. rewrite Hp, Hc, H1. simpl. auto.
-  - intros Hn1. pose proof (unify_inv s v HI Hl) as HU.
+  - intros Hn1. pose proof (unify_inv nodel s v HI Hl) as HU.
     assert (unify s v = assign_fresh (flag s (0 <? dcount c)) v (val c)) as Hu.
     { unfold unify. rewrite Hp, Hc. apply Nat.eqb_neq in Hn1. now rewrite Hn1. }
     set (s0 := flag s (0 <? dcount c)) in *.
     assert (Inv s0) as HI0.
     { pose proof (G_live_pos _ _ _ _ _ HI Hg) as Hpos. destruct HI as [Hb H]. pose proof (H o) as Ho. rewrite Hc in Ho.
       destruct Ho as [_ Hd]. simpl in Hd. destruct (Nat.eqb_spec (cnt (vars s) o + 0) 0); [lia|].
-      unfold s0. rewrite Hd. apply G_flag_false. split; auto. }
+      unfold s0. assert (dcount c = 0) as -> by lia. apply G_flag_false. split; auto. }
     assert (live s0 v = true) as Hl0 by exact Hl.
     pose proof (vars_assign_fresh s0 v (val c) HI0 Hl0) as Hvars. rewrite <- Hu in Hvars.
     change (vars s0) with (vars s) in Hvars. change (cells s0) with (cells s) in Hvars.
@@ -73,7 +85,7 @@ Proof.
     set (k := length (cells s)) in *.
     (* the clone's cell *)
     pose proof (mono_assign_fresh_from_alloc s0 v (val c)) as Hm. rewrite <- Hu in Hm.
-    specialize (Hm k {| rc := 0; dcount := 0; val := val c |}).
+    specialize (Hm k {| rc := 0; dcount := 0; orph := 0; val := val c |}).
     destruct Hm as (c' & Hc' & _ & Hval).
     { simpl. rewrite nth_error_app2 by (unfold k; lia). unfold k. now rewrite Nat.sub_diag. }
     exists c'. split; auto.
@@ -87,3 +99,5 @@ Proof.
       destruct H as [Hz _]. lia. }
     rewrite Hk in *. simpl in *. repeat split; auto; lia.
 Qed.
+
+End KindsUnify.
